@@ -196,7 +196,8 @@ def trace_case(spec, ctx):
 @st.composite
 def value_cases(draw):
     m = draw(models.model_specs(names="ident", n_state=(2, 3), n_control=(0, 1), n_calib=(0, 1), n_sensors=(1, 2),
-                                n_readings=(1, 2), depth=2, sensor_depth=2, euler="bounded", innovation=("none", "k")))
+                                n_readings=(1, 2), depth=2, sensor_depth=2, euler="bounded", innovation=("none", "k"),
+                                allow_positive=False))
     n = len(m["state"])
     max_dt = m["config"]["max_dt"]
     t0 = draw(st.sampled_from([0.0, 10.0, -3.0]))
@@ -255,7 +256,10 @@ def value_case(spec, ctx):
     for i, t in enumerate(spec["ticks"]):
         rs = None
         if t["readings"] is not None:
-            rs = [runtime.StampedReading(r["ts"], r["key"], **r["z"]) for r in t["readings"]]
+            # both documented ways of handing over a reading: named values, or a ready-made Reading object
+            rs = [runtime.StampedReading(r["ts"], r["key"], **r["z"]) if (i + j) % 2 == 0 else
+                  runtime.StampedReading(r["ts"], r["key"], _data=f.make_reading(r["key"], **r["z"]))
+                  for j, r in enumerate(t["readings"])]
         proxy.log.clear()
         with ctx.formak("python:tick:real-ekf", spec):
             got = mf.tick(t["out"], control=control, readings=rs)
